@@ -1,0 +1,52 @@
+//go:build verif
+
+package chain
+
+// Machine-checked contracts for package chain, read by /verif/gocv
+// (contract-based deductive verification). This file holds comments only; it is
+// compiled solely under the build tag "verif" and changes no behaviour.
+//
+// ---------------------------------------------------------------------------
+// C17: key-value backends against one abstract map model
+//
+// View of a MemDB session: val(n,k) = puts[n][k] if present, nil if k in dels[n],
+// otherwise buckets[n][k] (nil == absent).
+//
+//@ pred memView(db *MemDB, n string, k string) = ite(k in db.puts[n], db.puts[n][k], ite(k in db.dels[n], nil, db.buckets[n][k]))
+//@ pred memExists(db *MemDB, n string) = db.buckets[n] != nil || db.puts[n] != nil || db.dels[n] != nil
+//
+// Representation invariant: the three outer maps exist and are distinct, inner maps are
+// not shared between buckets or between the committed and the pending layer.
+//@ pred memInv(db *MemDB) = db != nil && db.buckets != nil && db.puts != nil && db.dels != nil && db.buckets != db.puts
+//@     && allocated(db.buckets) && allocated(db.puts) && allocated(db.dels)
+//@     && (forall a string, b string :: allocated(db.puts[a]) && allocated(db.buckets[a]) && allocated(db.dels[a])
+//@          && (db.puts[a] != nil && db.puts[a] == db.puts[b] ==> a == b)
+//@          && (db.buckets[a] != nil && db.buckets[a] == db.buckets[b] ==> a == b)
+//@          && (db.dels[a] != nil && db.dels[a] == db.dels[b] ==> a == b)
+//@          && (db.puts[a] != nil ==> db.puts[a] != db.buckets[b])
+//@          && (db.puts[a] != nil ==> db.puts[a] != db.puts && db.puts[a] != db.buckets)
+//@          && (db.buckets[a] != nil ==> db.buckets[a] != db.puts && db.buckets[a] != db.buckets))
+//@     && (forall n string, k string :: !(k in db.puts[n] && k in db.dels[n]))
+//
+//@ func (*MemDB).get props C17
+//@   nopanic
+//@   requires memInv(db)
+//@   ensures [view] result == memView(db, bucket, string(key))
+//
+//@ func (*MemDB).put props C17
+//@   nopanic
+//@   requires memInv(db)
+//@   ensures [inv] memInv(db)
+//@   ensures [err] (result == nil) <==> old(db.puts[bucket] != nil || db.buckets[bucket] != nil)
+//@   ensures [point] result == nil ==> forall k string :: memView(db, bucket, k) == ite(k == old(string(key)), value, old(memView(db, bucket, k)))
+//@   ensures [frame] forall n string, k string :: n != bucket ==> memView(db, n, k) == old(memView(db, n, k))
+//@   ensures [noop] result != nil ==> forall n string, k string :: memView(db, n, k) == old(memView(db, n, k))
+//
+//@ func (*MemDB).delete props C17
+//@   nopanic
+//@   requires memInv(db)
+//@   ensures [inv] memInv(db)
+//@   ensures [err] (result == nil) <==> old(db.dels[bucket] != nil || db.buckets[bucket] != nil)
+//@   ensures [point] result == nil ==> forall k string :: memView(db, bucket, k) == ite(k == old(string(key)), nil, old(memView(db, bucket, k)))
+//@   ensures [frame] forall n string, k string :: n != bucket ==> memView(db, n, k) == old(memView(db, n, k))
+//@   ensures [noop] result != nil ==> forall n string, k string :: memView(db, n, k) == old(memView(db, n, k))
